@@ -995,6 +995,7 @@ func runC07(args []string) error {
 	enum := fs.Bool("enum", false, "exploration: run the whole parameter space of the embedded-interface stream and print the outcomes")
 	enumq := fs.Bool("enumq", false, "exploration: run every argument-expression-shape cell and print the outcomes")
 	enumr := fs.Bool("enumr", false, "exploration: run every go/defer form x callee kind x argument kind and print the outcomes")
+	enumd := fs.Bool("enumd", false, "exploration: run every cell of the host-result-destination stream and print the deviating ones")
 	child := fs.Int("child", -1, "internal: run only this scenario and print what the host observed")
 	fs.Parse(args)
 	if err := os.MkdirAll(*out, 0o755); err != nil {
@@ -1016,6 +1017,10 @@ func runC07(args []string) error {
 	}
 	if *enumr {
 		h.enumStmts()
+		return nil
+	}
+	if *enumd {
+		h.enumD()
 		return nil
 	}
 	root := newRng(*seed)
